@@ -43,6 +43,9 @@ def replay(case):
     from fpy2 import RealFloat
     from spec import formats as F
     t = case['task']; inp = case['inputs']
+    if t['kind'] == 'glue':
+        from .c02_replay import replay as r2
+        return r2(case)
     s = bool(t['s']); c = inp['c']; exp = inp['exp']; k = t['k']
     x = RealFloat(s, exp, c)
     v = Fraction(c) * Fraction(2) ** exp
